@@ -4,7 +4,8 @@
  * limit), one of the two wake paths must have fired during the call.
  * Real: ares_send_query one level (requeue = contract stub), ares_conn_query_write, ares_conn_flush, ares_conn_write,
  * ares_conn_sock_state_cb_update, ares_open_connection.  The event thread's callbacks are replaced by recorders
- * (ares_event_thread_sockstate_cb -> ares_event_update -> wake; notifywrite_cb -> wake). */
+ * (ares_event_thread_sockstate_cb -> ares_event_update -> wake; notifywrite_cb -> wake); the direct wake request
+ * ares_event_thread_wake_channel() (added by the fix of finding evthread_idle_conn_nowake) is the recorder of machine.h. */
 #include "machine.h"
 
 static int woken;
@@ -52,6 +53,7 @@ void harness(void)
     VP_ASSUME(q->conn == old && old != NULL);
 #endif
     /* a pending-write notification that was already outstanding before the call will still be processed */
+    if (M_evwake) woken = 1; /* direct wake request (ares_event_thread_wake_channel) */
     VP_ASSERT(woken || (M_ch.notify_pending_write && (q->conn->flags & ARES_CONN_FLAG_TCP) && ares_buf_len(q->conn->out_buf) > 0),
               "FINDING evthread_idle_conn_nowake: registering the earliest deadline wakes the event thread");
     if (q->conn == old && old != NULL) VP_WITNESS("reused idle connection");
